@@ -378,11 +378,97 @@ Proof.
     - assert (H : (x - off) / d <= kq). { apply Qle_shift_div_r; [exact Hd|]. rewrite (Qmult_comm kq d), Edk. lra. }
       apply Qceiling_resp_le in H. unfold kq in H. rewrite Qceiling_Z in H. exact H. }
   destruct (Hceil lo Hlo0 ltac:(lra)) as [A0 A1]. destruct (Hceil hi ltac:(lra) Hhitot) as [B0 B1].
+  unfold g in Hsplit |- *.
   rewrite (prog_below off d k Hd lo A0), (prog_below off d k Hd hi B0) in Hsplit.
   rewrite Z.min_l in Hsplit by lia. rewrite Z.min_l in Hsplit by lia.
   pose proof (ceil_diff ((lo - off) / d) (nth j w 0 * kq / tot)) as CD.
   assert (EB : (lo - off) / d + nth j w 0 * kq / tot == (hi - off) / d).
   { unfold d. rewrite Ehi. field. split; lra. }
   rewrite (Qceiling_comp _ _ EB) in CD.
-  fold g in Hsplit. lia.
+  lia.
+Qed.
+
+(** ** from positions in the sorted order back to element indices, through the shuffle *)
+Lemma sumQ_Permutation l l' : Permutation l l' -> sumQ l == sumQ l'.
+Proof.
+  induction 1 as [|x l l' _ IH|x y l|l l' l'' _ IH1 _ IH2]; rewrite ?sumQ_cons; lra.
+Qed.
+
+Lemma nth_nonneg (p : list Q) i : Forall (fun x => 0 <= x) p -> 0 <= nth i p 0.
+Proof.
+  intros H. destruct (Nat.lt_ge_cases i (length p)) as [L|G].
+  - rewrite Forall_forall in H. apply H, nth_In, L.
+  - rewrite nth_overflow by exact G. lra.
+Qed.
+
+Lemma gather_nth {A} (d : A) (x : list A) (ix : list nat) j : (j < length ix)%nat ->
+  nth j (gather d x ix) d = nth (nth j ix 0%nat) x d.
+Proof.
+  intros Hj. unfold gather. rewrite (nth_indep _ d (nth 0%nat x d)) by (rewrite map_length; exact Hj).
+  now rewrite (map_nth (fun i => nth i x d)).
+Qed.
+
+Lemma gather_count (order walk : list nat) j : NoDup order -> (j < length order)%nat ->
+  Forall (fun ix => (ix < length order)%nat) walk ->
+  count_nat (nth j order 0%nat) (gather 0%nat order walk) = count_nat j walk.
+Proof.
+  intros Hnd Hj Hw. unfold gather. rewrite count_nat_map_filter.
+  rewrite <- (map_id walk) at 2. rewrite count_nat_map_filter.
+  f_equal. apply filter_ext_in. intros ix Hix. rewrite Forall_forall in Hw. specialize (Hw ix Hix).
+  destruct (Nat.eqb_spec ix j) as [E|NE].
+  - subst. apply Nat.eqb_refl.
+  - apply Nat.eqb_neq. intros E. apply NE. eapply NoDup_nth; eauto.
+Qed.
+
+Lemma sus_finish_some order k cs ptrs perm : (0 < length cs)%nat -> (0 < k)%nat ->
+  sus_finish order k cs ptrs perm = Some (permute 0%nat perm (gather 0%nat order (sus_walk cs 0 ptrs))).
+Proof.
+  intros Hc Hk. unfold sus_finish. destruct cs; [cbn in Hc; lia|]. destruct (Nat.eqb_spec k 0); [lia|reflexivity].
+Qed.
+
+Theorem sus_q_spec (p : list Q) (order : list nat) (k : nat) (off : Q) (perm : list nat) :
+  Forall (fun x => 0 <= x) p -> 0 < sumQ p -> Permutation order (seq 0 (length p)) -> (0 < k)%nat ->
+  0 <= off -> off < sumQ p / inject_Z (Z.of_nat k) -> Permutation perm (seq 0 k) ->
+  exists sel, sus_q p order k off perm = Some sel /\ length sel = k /\
+    forall i, (i < length p)%nat ->
+      (Qfloor (nth i p 0 * inject_Z (Z.of_nat k) / sumQ p)%Q <= Z.of_nat (count_nat i sel)
+       <= Qceiling (nth i p 0 * inject_Z (Z.of_nat k) / sumQ p)%Q)%Z
+      /\ (nth i p 0 == 0 -> count_nat i sel = 0%nat).
+Proof.
+  intros Hp Htot Hord Hk Hoff0 Hoff Hperm.
+  set (w := gather 0 p order).
+  assert (Lord : length order = length p) by (rewrite (Permutation_length Hord); apply seq_length).
+  assert (Lw : length w = length p) by (unfold w, gather; now rewrite map_length).
+  assert (Lp : (0 < length p)%nat). { destruct p; [cbn in Htot; lra | cbn; lia]. }
+  assert (Lcs : length (cumsum w) = length p) by (unfold cumsum; now rewrite cumsum_from_length).
+  assert (NDord : NoDup order). { eapply Permutation_NoDup; [symmetry; exact Hord | apply seq_NoDup]. }
+  assert (Hw : Forall (fun x => 0 <= x) w).
+  { unfold w, gather. apply Forall_forall. intros x Hx. apply in_map_iff in Hx as (i & E & _). subst. now apply nth_nonneg. }
+  assert (Pw : Permutation w p). { apply (permute_Permutation 0 order p). exact Hord. }
+  assert (Etot : sumQ p == sumQ w) by (symmetry; now apply sumQ_Permutation).
+  set (ptrs := sus_ptrs_q (sumQ p) k off).
+  set (walk := sus_walk (cumsum w) 0 ptrs).
+  assert (Lptrs : length ptrs = k) by (unfold ptrs, sus_ptrs_q; now rewrite map_length, seq_length).
+  assert (Lwalk : length walk = k) by (unfold walk; now rewrite walk_length).
+  assert (Sptrs : StronglySorted Qle ptrs).
+  { unfold ptrs. apply (prog_sorted off (sumQ p / inject_Z (Z.of_nat k)) k).
+    apply Qlt_shift_div_l; [change 0 with (inject_Z 0); rewrite <- Zlt_Qlt; lia | lra]. }
+  assert (Rwalk : Forall (fun ix => (ix < length order)%nat) walk).
+  { pose proof (walk_range (cumsum w) ptrs Sptrs) as H. eapply Forall_impl; [|exact H]. cbn. intros a Ha. lia. }
+  exists (permute 0%nat perm (gather 0%nat order walk)).
+  split; [|split].
+  - unfold sus_q. fold w. rewrite sus_finish_some by lia. reflexivity.
+  - rewrite permute_length. rewrite (Permutation_length Hperm). apply seq_length.
+  - intros i Hi.
+    assert (Hin : In i order). { eapply Permutation_in; [symmetry; exact Hord | apply in_seq; lia]. }
+    destruct (In_nth order i 0%nat Hin) as (j & Hj & Ej).
+    assert (Ecount : count_nat i (permute 0%nat perm (gather 0%nat order walk)) = count_nat j walk).
+    { rewrite (count_nat_Permutation i _ (gather 0%nat order walk)).
+      - rewrite <- Ej. now apply gather_count.
+      - apply permute_Permutation. unfold gather. rewrite map_length, Lwalk. exact Hperm. }
+    assert (Ew : nth j w 0 = nth i p 0). { unfold w. rewrite gather_nth by exact Hj. now rewrite Ej. }
+    pose proof (sus_cell_count w (sumQ p) k off j Hw Etot Htot Hk Hoff0 Hoff ltac:(lia)) as H.
+    fold ptrs in H. fold walk in H. rewrite Ew in H. rewrite Ecount. split; [exact H|].
+    intros Hz. assert (E0 : nth i p 0 * inject_Z (Z.of_nat k) / sumQ p == 0) by (rewrite Hz; field; lra).
+    rewrite (Qceiling_comp _ _ E0) in H. change (Qceiling 0) with 0%Z in H. lia.
 Qed.
